@@ -718,6 +718,7 @@ func main() {
 
 	// translated integer functions
 	gen := translateAll(pkgs)
+	genDec := translateDec(pkgs)
 
 	if len(problems) > 0 {
 		for _, p := range problems {
@@ -728,6 +729,8 @@ func main() {
 		os.MkdirAll(*out, 0o755)
 		os.Remove(filepath.Join(*out, "Facts.lean"))
 		os.Remove(filepath.Join(*out, "Arith.lean"))
+		os.Remove(filepath.Join(*out, "Dec.lean"))
+		must(os.WriteFile(filepath.Join(*out, "Dec.lean"), []byte(genDec), 0o644))
 		must(os.WriteFile(filepath.Join(*out, "Facts.lean"), []byte(b.String()), 0o644))
 		must(os.WriteFile(filepath.Join(*out, "Arith.lean"), []byte(gen), 0o644))
 		js, _ := json.MarshalIndent(map[string]interface{}{"cosmosChain": cosmos, "settlusChain": settlus, "postChain": post, "authzDisabled": disabled, "rejectPrefixes": prefixes,
